@@ -5,7 +5,8 @@
     [parse_top s tol cx (walker_state cx)] is
     [LatexWalker(s, latex_context=cx, tolerant_parsing=tol).parse_content(LatexGeneralNodesParser())].
 
-    All strict theorems hold for EVERY string [s] and EVERY context [cx] with
+    All strict theorems hold for EVERY string [s] and EVERY context [cx]; only
+    the clause "a chars node's text is its source slice" needs
     [ctx_ok cx = true] (the marker of an optional-chars argument [*], [s],
     [t<c>] is a single character — the only form the argument-specification
     strings of pylatexenc and the context translator of the harness produce;
@@ -21,7 +22,8 @@
     - [chain lo hi l] the present nodes of [l] all have a span, lie inside
                      [lo, hi], in increasing order, pairwise non-overlapping
                      ([None] slots are skipped);
-    - [wf_node s n]  (recursive over the whole tree below [n])
+    - [wf_node tx s n] (recursive over the whole tree below [n]; [tx = false]
+                     drops the chars-text clause)
                      [pos <= pos_end <= |s|]; the children — arguments in order,
                      then body items — are a [chain] inside the node's span; a
                      body node list lies inside the node's span; a chars node's
@@ -44,43 +46,62 @@ Import ListNotations.
 (** The top-level node list of a strict parse spans the whole input, the
     reader ends at the end of the input, and the top-level nodes tile the
     input: each starts where the previous one ended, the first at 0, the last
-    ends at [|s|].  (For [s = []] the list is empty with span (0,0).) *)
-Theorem C01_strict_tiles : forall s cx a b items p, ctx_ok cx = true ->
+    ends at [|s|].  Every string, EVERY context. *)
+Theorem C01_strict_tiles : forall s cx a b items p,
   parse_top s false cx (walker_state cx) = Ok (ONode (Some (NList a b items))) p ->
   a = Some 0 /\ b = Some (length s) /\ p = length s /\ tiles 0 (length s) items.
 Proof. exact parse_top_strict_tiles. Qed.
 
+(** For the empty input the list is empty with span (0,0) (both modes, every context). *)
+Theorem C01_empty_input : forall tol cx,
+  parse_top [] tol cx (walker_state cx) = Ok (ONode (Some (NList (Some 0) (Some 0) []))) 0.
+Proof. exact parse_top_empty. Qed.
+
 (** Every node of the returned tree is well formed: in range, children inside
     the span in document order without overlap, chars / comment text equal to
-    the source slice, delimiters of closed groups and math at the span ends. *)
+    the source slice, delimiters of closed groups and math at the span ends.
+    ([wf_node true]: with the text clause of chars nodes; needs [ctx_ok].) *)
 Theorem C01_wf_nodes : forall s cx a b items p, ctx_ok cx = true ->
   parse_top s false cx (walker_state cx) = Ok (ONode (Some (NList a b items))) p ->
-  forall m, in_tree m (NList a b items) -> wf_node s m.
+  forall m, in_tree m (NList a b items) -> wf_node true s m.
 Proof.
   intros s cx a b items p CX H m I. eapply wf_in_tree; [exact I|].
   eapply parse_top_strict_wf; eauto.
 Qed.
 
+(** The same for EVERY context, without the text clause of chars nodes
+    ([wf_node false]: everything else — ranges, nesting and order of children,
+    comment text, delimiters). *)
+Theorem C01_wf_nodes_any_ctx : forall s cx a b items p,
+  parse_top s false cx (walker_state cx) = Ok (ONode (Some (NList a b items))) p ->
+  forall m, in_tree m (NList a b items) -> wf_node false s m.
+Proof.
+  intros s cx a b items p H m I. eapply wf_in_tree; [exact I|].
+  eapply parse_top_strict_wf_any; eauto.
+Qed.
+
 (** Concatenating the verbatim source of the top-level nodes reproduces the
-    input character for character; so does the verbatim of the list itself. *)
-Theorem C01_verbatim_concat : forall s cx a b items p, ctx_ok cx = true ->
+    input character for character; so does the verbatim of the list itself.
+    Every string, EVERY context. *)
+Theorem C01_verbatim_concat : forall s cx a b items p,
   parse_top s false cx (walker_state cx) = Ok (ONode (Some (NList a b items))) p ->
   concat (map (verbatim_o s) items) = s /\ verbatim s (NList a b items) = s.
 Proof. exact parse_top_strict_verbatim. Qed.
 
 (** Whatever a strict parse returns IS such a node list (never [None], never a
-    lone node): the three theorems above cover every strict [Ok] outcome. *)
-Theorem C01_strict_shape : forall s cx o p, ctx_ok cx = true ->
+    lone node): the theorems above cover every strict [Ok] outcome. *)
+Theorem C01_strict_shape : forall s cx o p,
   parse_top s false cx (walker_state cx) = Ok o p ->
   exists items, o = ONode (Some (NList (Some 0) (Some (length s)) items)).
 Proof. exact parse_top_strict_shape. Qed.
 
 (** The same for every fuel (not only [parse_fuel]): the invariant does not
-    depend on how much fuel the run was given. *)
-Theorem C01_strict_any_fuel : forall s cx, ctx_ok cx = true -> forall fuel a b items p,
+    depend on how much fuel the run was given.  ([tx = true]: with chars text,
+    under the context condition; [tx = false]: every context.) *)
+Theorem C01_strict_any_fuel : forall s cx tx, (tx = true -> ctx_ok cx = true) -> forall fuel a b items p,
   parse_content false (run s false cx fuel (TGeneral (walker_state cx) top_opts 0))
     = Ok (ONode (Some (NList a b items))) p ->
-  a = Some 0 /\ b = Some (length s) /\ p = length s /\ tiles 0 (length s) items /\ wf_items s items.
+  a = Some 0 /\ b = Some (length s) /\ p = length s /\ tiles 0 (length s) items /\ wf_items tx s items.
 Proof. exact top_strict. Qed.
 
 (** The generated default context satisfies the context condition. *)
@@ -179,7 +200,9 @@ Example C01_nonvacuous :
 Proof. vm_compute. eexists _, _, _, _. split; [reflexivity|]. split; reflexivity. Qed.
 
 Print Assumptions C01_strict_tiles.
+Print Assumptions C01_empty_input.
 Print Assumptions C01_wf_nodes.
+Print Assumptions C01_wf_nodes_any_ctx.
 Print Assumptions C01_verbatim_concat.
 Print Assumptions C01_strict_shape.
 Print Assumptions C01_strict_any_fuel.
